@@ -374,7 +374,10 @@ def rhistory(r, length, small=False, as_ops=False):
 
 # ------------------------------------------------------------------ hostile streams
 
-BAD32 = [-1, -2, -2 ** 31, 2 ** 31 - 1, 2 ** 28 + 1, 0x20000001, 0x10000001, 0x7FFFFFF0, 65536, 255, 256, 1, 0, 2, 3]
+BAD32 = [-1, -2, -2 ** 31, 2 ** 31 - 1, 2 ** 28 + 1, 0x20000001, 0x10000001, 0x7FFFFFF0, 65536, 255, 256, 1, 0, 2, 3,
+         # the last count an `> INT_MAX / size` guard lets through, and the first it refuses, per element size
+         (2 ** 31 - 1) // 2, (2 ** 31 - 1) // 2 + 1, (2 ** 31 - 1) // 4, (2 ** 31 - 1) // 4 + 1,
+         (2 ** 31 - 1) // 8, (2 ** 31 - 1) // 8 + 1, (2 ** 31 - 1) // 16, (2 ** 31 - 1) // 16 + 1]
 
 
 def mutate_field(r, data, f, be=False):
